@@ -60,7 +60,7 @@ def _skip_trivia(toks, i, end):
     return i
 
 
-def parse_items(toks, start, end):
+def parse_items(toks, start, end, limit=None):
     """Parse the items in toks[start:end] (a file, or the inside of a {...} body)."""
     items = []
     i = start
@@ -162,6 +162,7 @@ def parse_items(toks, start, end):
             if t.kind == "punct" and t.text in ")]": d -= 1
             hdr.append(t.text)
         items.append(Item(toks, full_start, core, endidx, kind, name, hdr))
+        if limit is not None and len(items) >= limit: break
         i = endidx
     return items
 
@@ -248,6 +249,46 @@ def _match_segment(items, seg):
     return cands[0]
 
 
+def _match_deep(sf, rng, seg):
+    """`stmt <tokens>`: the statement (at any depth inside the current item) that starts with the token sequence and runs to the
+    next `;` at its own depth.  `deepfn <name>`: a fn item at any depth (e.g. inside a macro_rules body)."""
+    toks = sf.toks
+    kind, rest = seg.split(" ", 1)
+    m = re.match(r"^(.*?)(?:\s*#(\d+))?$", rest.strip())
+    pat = [t.text for t in lex(m.group(1)) if t.kind not in TRIVIA]
+    nth = int(m.group(2) or 0)
+    if kind == "deepfn": pat = ["fn"] + pat
+    sig = [i for i in range(rng[0], rng[1]) if toks[i].kind not in TRIVIA]
+    hits = []
+    for a in range(len(sig) - len(pat) + 1):
+        if all(toks[sig[a + k]].text == pat[k] for k in range(len(pat))):
+            hits.append(sig[a])
+    if nth >= len(hits):
+        raise LostAnchor("selector segment %r: %d hits" % (seg, len(hits)))
+    if kind == "stmt" and len(hits) != 1 and m.group(2) is None:
+        raise LostAnchor("selector segment %r matches %d statements" % (seg, len(hits)))
+    start = hits[nth]
+    if kind == "deepfn":
+        # include preceding `pub`/`pub(crate)` is not needed; parse one item from `fn`
+        its = parse_items(toks, start, rng[1], limit=1)
+        if not its or its[0].kind != "fn": raise LostAnchor("deepfn %r: not a fn" % seg)
+        return its[0]
+    d = 0
+    end = None
+    for j in range(start, rng[1]):
+        t = toks[j]
+        if t.kind == "punct":
+            if t.text in OPEN: d += 1
+            elif t.text in CLOSE:
+                d -= 1
+                if d < 0: break
+            elif t.text == ";" and d == 0:
+                end = j + 1; break
+    if end is None: raise LostAnchor("statement %r has no terminating `;`" % seg)
+    hdr = [toks[i].text for i in range(start, end) if toks[i].kind not in TRIVIA][:8]
+    return Item(toks, start, start, end, "stmt", None, hdr)
+
+
 def select(selector):
     """selector = 'src/x.rs :: impl Range :: fn merge'  -> (SourceFile, Item)"""
     parts = [p.strip() for p in selector.split("::")]
@@ -256,8 +297,12 @@ def select(selector):
     sf = SourceFile.get(parts[0])
     items = sf.items
     it = None
+    rng = (0, len(sf.toks))
     for seg in parts[1:]:
-        it = _match_segment(items, seg)
+        if seg.startswith("stmt ") or seg.startswith("deepfn "):
+            it = _match_deep(sf, rng, seg)
+        else:
+            it = _match_segment(items, seg)
         br = it.body_range()
         if it.kind in ("macro_call", "macro_rules") and br is None:
             # body in (...) or [...]
@@ -265,6 +310,7 @@ def select(selector):
                 if sf.toks[i].kind == "punct" and sf.toks[i].text in "([":
                     br = (i, match_close(sf.toks, i)); break
         if br is not None:
+            rng = (br[0] + 1, br[1])
             try:
                 items = parse_items(sf.toks, br[0] + 1, br[1])
             except LostAnchor:
